@@ -296,7 +296,11 @@ func c15AskHist(c *core.Ctx, o *c15Out, k c15Case, calls []c15Call, dls []c15Dl,
 		f = fmt.Sprint(fault)
 	}
 	toks := c15HistTokens(calls, dls)
-	reply := c.Model.Ask("c15-hist %s %d %d %d %s %s", c15Transport(k.UDP), c15BoundMs, c15PropMs, c15EpsMs, f, strings.Join(toks, " "))
+	stall := "-"
+	if k.Kind == "stall" && !k.UDP {
+		stall = k.StallSide
+	}
+	reply := c.Model.Ask("c15-hist %s %d %d %d %s %s %s", c15Transport(k.UDP), c15BoundMs, c15PropMs, c15EpsMs, f, stall, strings.Join(toks, " "))
 	c.Compared()
 	if reply == "ok accept" {
 		return
@@ -725,6 +729,14 @@ func c15RunMixed(c *core.Ctx, k c15Case) *c15Out {
 		}
 		if k.Ender == "fault" {
 			rel = "either"
+		}
+		if k.Kind == "stall" && !k.UDP && wk.end.side == k.StallSide && rel != "local" {
+			// known finding: the event loop of this side is parked in deliverSegmentToSession behind the
+			// connection whose application stopped reading; it does not read the TCP connection, so
+			// neither the peer's close nor the loss of the connection is noticed
+			o.violate("C15/hang/behind-stalled-session-tcp", "%s at the %s end of connection %d had not returned %d ms after %s: the %s side's event loop is parked behind connection 0, whose application stopped reading; goroutines of the project: %s",
+				wk.what, wk.end.side, wk.end.sess, c15BoundMs+c15PropMs, k.Ender, wk.end.side, c15SigSummary())
+			continue
 		}
 		o.violate(fmt.Sprintf("C15/hang/%s-%s-end-after-%s-%s", map[string]string{"R": "read", "W": "write"}[wk.what], rel, k.Ender, tr),
 			"%s at the %s end of connection %d had not returned %d ms after %s; goroutines of the project: %s", wk.what, wk.end.side, wk.end.sess, c15BoundMs+c15PropMs, k.Ender, c15SigSummary())
@@ -1271,26 +1283,19 @@ func c15Race(c *core.Ctx) {
 	run.Env = append(os.Environ(), "VH_C15_RACE=1", "GORACE=halt_on_error=0 exitcode=66")
 	b, err := run.CombinedOutput()
 	text := string(b)
-	if i := strings.Index(text, "WARNING: DATA RACE"); i >= 0 {
-		rep := text[i:]
+	own, foreign := c15RaceReports(text)
+	if foreign > 0 {
+		c.Note("C15 race variant: %d report(s) whose two accesses are both inside the in-memory network (harness/simnet Conn.closedSelf: read in Write under wmu, written in Close under in.mu) were ignored; they do not involve the project's memory", foreign)
+	}
+	if len(own) > 0 {
+		rep := own[0]
 		if len(rep) > 6000 {
 			rep = rep[:6000]
 		}
-		fn := "unknown"
-		for _, l := range strings.Split(rep, "\n") {
-			l = strings.TrimSpace(l)
-			if strings.HasPrefix(l, "github.com/enfein/mieru/v3/") {
-				fn = strings.TrimPrefix(l, "github.com/enfein/mieru/v3/")
-				if j := strings.Index(fn, "("); j > 0 && !strings.HasPrefix(fn[j:], "(*") {
-					fn = fn[:j]
-				}
-				break
-			}
-		}
-		c.Violate("C15/race/"+fn, "the race detector reported a data race while readers, writers, deadline setters and closers used connections concurrently:\n"+rep, map[string]interface{}{"kind": "race", "seed": c.Seed, "how": "see docs/notes/C15.md, section Race variant"})
+		c.Violate("C15/race/"+c15RaceKey(rep), fmt.Sprintf("the race detector reported %d data race(s) on the project's memory while readers, writers, deadline setters and closers used connections concurrently; the first:\n%s", len(own), rep), map[string]interface{}{"kind": "race", "seed": c.Seed, "how": "see docs/notes/C15.md, section Race variant"})
 		return
 	}
-	if err != nil {
+	if ee, ok := err.(*exec.ExitError); err != nil && !(ok && ee.ExitCode() == 66 && foreign > 0) {
 		c.Note("C15 race variant exited with %v: %s", err, text[mathMax(0, len(text)-400):])
 		return
 	}
@@ -1301,6 +1306,50 @@ func c15Race(c *core.Ctx) {
 			c.Violate(v.Key, "(race build) "+v.What, v.Replay)
 		}
 	}
+}
+
+// c15RaceReports splits the race detector's output into reports and keeps those in which at least
+// one of the two conflicting accesses is made by code of the project (the innermost frame of the
+// access is a function of github.com/enfein/mieru). Reports between two accesses of the harness's
+// own network simulation are counted separately.
+func c15RaceReports(text string) (own []string, foreign int) {
+	for _, blk := range strings.Split(text, "==================") {
+		if !strings.Contains(blk, "WARNING: DATA RACE") {
+			continue
+		}
+		lines := strings.Split(blk, "\n")
+		project := false
+		for i, l := range lines {
+			t := strings.TrimSpace(l)
+			if (strings.HasPrefix(t, "Write at") || strings.HasPrefix(t, "Read at") || strings.HasPrefix(t, "Previous write at") || strings.HasPrefix(t, "Previous read at") ||
+				strings.HasPrefix(t, "Atomic") || strings.HasPrefix(t, "Previous atomic")) && i+1 < len(lines) {
+				if strings.HasPrefix(strings.TrimSpace(lines[i+1]), "github.com/enfein/mieru/") {
+					project = true
+				}
+			}
+		}
+		if project {
+			own = append(own, strings.TrimSpace(blk))
+		} else {
+			foreign++
+		}
+	}
+	return own, foreign
+}
+
+// c15RaceKey names a race by the project function that makes the first conflicting access.
+func c15RaceKey(rep string) string {
+	for _, l := range strings.Split(rep, "\n") {
+		l = strings.TrimSpace(l)
+		if strings.HasPrefix(l, "github.com/enfein/mieru/v3/") {
+			fn := strings.TrimPrefix(l, "github.com/enfein/mieru/v3/")
+			if j := strings.LastIndex(fn, "("); j > 0 {
+				fn = fn[:j]
+			}
+			return strings.NewReplacer("(", "", ")", "", "*", "").Replace(fn)
+		}
+	}
+	return "unknown"
 }
 
 func minInt(a, b int) int {
